@@ -129,3 +129,53 @@ def c03(ck):
     gen_and_replay(ck, "GenC03", consts, timeout=1500)
     ck.exhaustive = True
     ck.extra["bounds"] = consts
+
+
+@check("C12")
+def c12(ck):
+    ck.rule = ("mode qq: every quasiquote template of <= MaxSize nodes (15 leaves incl. ~x ~@xs ~@empty ~@vector, "
+               "effects inside unquotes, unquote/splice-unquote symbols in non-head position; list/vector/map "
+               "constructors) evaluated as template SUBSTITUTION by Def.tla; mode mac: every macro-call program of "
+               "<= MaxSize nodes over 7 user macros + cond/or/and/->/->> and the routes c | (macroexpand c) | "
+               "(eval (macroexpand c)); compared: value, effects, generated symbols up to renaming")
+    q = ck.quick
+    for mode, consts in (("qq", {"MaxSize": 4 if q else 5, "SampleSize": 6, "SampleN": 3000 if q else 30000}),
+                         ("mac", {"MaxSize": 3, "SampleSize": 4 if q else 5, "SampleN": 6000 if q else 60000})):
+        consts = dict(consts, Mode='"%s"' % mode)
+        gen_and_replay(ck, "GenC12", consts, timeout=1500)
+        ck.extra.setdefault("bounds", {})[mode] = consts
+    ck.exhaustive = True
+
+
+def dedupe_by_src(cases, merge_key=None):
+    out = {}
+    for c in cases:
+        k = c.get("src")
+        if k in out:
+            if merge_key and c.get(merge_key):
+                out[k][merge_key] = c[merge_key]
+        else:
+            out[k] = c
+    return list(out.values())
+
+
+@check("C02")
+def c02(ck):
+    ck.rule = ("every history of MaxLen collection-producing operations (21 sequence ops incl. conj concat subvec "
+               "rest vec seq take/drop assoc with-meta quasiquote-splice apply map update; 15 map ops) applied to "
+               "values produced earlier in the history, explored by TLC on an implementation-shaped model of Go "
+               "slices (heap of backing arrays, in-place append when len<cap); every history is replayed for every "
+               "construction path of the seed (realising different spare capacities), via text and via AST, "
+               "re-reading every earlier binding after every step; distinct = distinct histories")
+    q = ck.quick
+    total_danger = 0
+    for fam, ml in (("seq", 2 if q else 3), ("map", 2 if q else 3)):
+        consts = {"MaxLen": ml, "Family": '"%s"' % fam}
+        r = ck.tlc("GenC02", cfg(constants=consts), timeout=1500)
+        ck.tlc_ok(r, "GenC02")
+        cases = dedupe_by_src(r.cases, "danger")
+        total_danger += sum(1 for c in cases if c.get("danger"))
+        ck.replay(cases)
+        ck.extra.setdefault("bounds", {})[fam] = consts
+    ck.extra["model_dangerous_histories"] = total_danger
+    ck.exhaustive = True
